@@ -50,7 +50,7 @@ theorem skipPos_ge (p : Nat) (s : List Char) : p ≤ skipPos p s := by unfold sk
 theorem chain_items {F : ValFam} {p : Nat} {s : List Char} {p' : Nat} {s' : List Char} {ps : List Pair}
     (h : Chain (GoodC F) p s p' s' ps) : ∀ s₀, At s₀ p s →
     ∃ vs, itemsV P' F.const (toks s) = (closeTok ']' (toks s')).map (fun r => (vs, r)) ∧ At s₀ p' s' ∧ p ≤ p' ∧
-      (noFloatVs vs = true → BuildsL s₀ p ps vs) := by
+      (finVs vs = true → BuildsL s₀ p ps vs) := by
   induction h with
   | @stop p s hg =>
     intro s₀ hat
@@ -87,7 +87,7 @@ theorem chain_items {F : ValFam} {p : Nat} {s : List Char} {p' : Nat} {s' : List
         rw [← hts, hi]
         cases closeTok ']' (toks s3) <;> rfl
       · intro hnf bf hbf
-        simp only [noFloatVs, Bool.and_eq_true] at hnf
+        simp only [finVs, Bool.and_eq_true] at hnf
         have h1 := hb hnf.1 bf (by rw [hst]; omega)
         have h2 := hbl hnf.2 bf (by omega)
         simp [List.mapM_cons, h1, h2, normVs, bind, Except.bind, pure, Except.pure]
@@ -95,7 +95,7 @@ theorem chain_items {F : ValFam} {p : Nat} {s : List Char} {p' : Nat} {s' : List
 theorem goodV_of_ev {F : ValFam} {s₀ : List Char} {q : Nat} {t s' : List Char} {p1 : Nat} {inner : Pair} {N : Nat}
     {v : PValue} (hev : EvR G0 c0 (.ident F.vName) q t N (.ok p1 s' [Pair.mk F.vName q p1 [inner]]))
     (hp : pV P' F.const (toks t) = some (v, toks s')) (hlt : s'.length < t.length)
-    (hb : noFloatV v = true → Builds s₀ (Pair.mk F.vName q p1 [inner]) v) :
+    (hb : finV v = true → Builds s₀ (Pair.mk F.vName q p1 [inner]) v) :
     GoodV F s₀ q t (.ok p1 s' [Pair.mk F.vName q p1 [inner]]) := by
   obtain ⟨r, h1, h2⟩ := goodV_scalar hev hp hlt hb
   rw [← EvR.unique hev h1] at h2; exact h2
@@ -211,5 +211,5 @@ theorem value_list_case (F : ValFam) (hF : IsFam F) (q : Nat) (t : List Char) (h
     · rw [hts, pV_lbrack, ← toks_skipI rest, hi, hcl]; rfl
     · intro hnf
       exact build_list F hF s₀ q _ (skipPos (q + 1) rest) ps vs (by have := skipPos_ge (q + 1) rest; omega)
-        (by have := hat2.len; omega) (hbl (by simpa [noFloatV] using hnf))
+        (by have := hat2.len; omega) (hbl (by simpa [finV] using hnf))
 end AGV.Lemmas.PegX
